@@ -79,15 +79,21 @@ func (tx *Tx) change(f *FeeQuote, output *changeOutput) (uint64, bool, error) {
 	if varIntUpper == -1 {
 		return 0, false, nil
 	}
-	changeOutputFee := varIntUpper
-	changeP2pkhByteLen := uint64(0)
+	// A new change output adds bytes to the transaction, all of which pay the
+	// standard rate: its value (8), its locking script with length prefix, and
+	// the growth of the output-count varint when the count crosses 252/65535/...
+	changeBytes := uint64(0)
 	if output != nil && output.newOutput {
-		changeP2pkhByteLen = uint64(8 + 1 + 25)
+		scriptLen := 0
+		if output.lockingScript != nil {
+			scriptLen = len(*output.lockingScript)
+		}
+		changeBytes = uint64(8 + VarInt(scriptLen).Length() + scriptLen + varIntUpper)
 	}
 
-	sFees := (size.TotalStdBytes + changeP2pkhByteLen) * uint64(stdFee.MiningFee.Satoshis) / uint64(stdFee.MiningFee.Bytes)
+	sFees := (size.TotalStdBytes + changeBytes) * uint64(stdFee.MiningFee.Satoshis) / uint64(stdFee.MiningFee.Bytes)
 	dFees := size.TotalDataBytes * uint64(dataFee.MiningFee.Satoshis) / uint64(dataFee.MiningFee.Bytes)
-	txFees := sFees + dFees + uint64(changeOutputFee)
+	txFees := sFees + dFees
 
 	// not enough to add change, no change to add
 	if available <= txFees || available-txFees <= DustLimit {
